@@ -287,8 +287,8 @@ def writeRetry (C : Cfg) (W : World ω) (i' : Nat) (rest : Bytes) (s2 : St σ ω
 /-- one round of the loop of `Write(data, size)`: `rest` (non-empty) is the unsent suffix, `i'` rounds are
 left after this one.  Since e3dfab5 a successful partial write makes the full budget available again. -/
 def writeRound (C : Cfg) (W : World ω) (E : Engine σ) (i' : Nat) (rest : Bytes) (s : St σ ω) : Next × St σ ω :=
-  if C.asserts ∧ ¬ (s.g.pendingSend = [] ∨ s.g.pendingSend = rest) then
-    (.stop (.abort "assert(pendingSend.empty() || pendingSend == remaining)"), s)
+  if C.asserts ∧ ¬ (s.g.pendingSend = [] ∨ s.g.pendingSend.length = rest.length) then
+    (.stop (.abort "assert(pendingSend.empty() || pendingSend.size() == remaining.size())"), s)
   else
     match interp W s (E.sslWrite s.e rest) with
     | (.exn e, s') => (.stop (.exn e), s')
